@@ -83,6 +83,7 @@ def work(arg):
 
 def run(tier):
     run_ = core.Run('C12', tier)
+    r1 = explore.r1_prepare()
     guards = []
     # (a)
     plans = core.pmap(plan, [(T, tier) for T in impl.TYPES])
@@ -125,7 +126,7 @@ def run(tier):
            'permutations_replayed': nperm, 'permutation_outcomes': dict(oc), 'bfs_counters': dict(ost),
            'samples': [{'type': T, 'permutation': list(items[-1][0]), 'arrangement': list(items[-1][1])}
                        for T, n, items in plans[:4] if items],
-           'exhaustive': True, 'per_type': per_type,
+           'exhaustive': True, 'r1_check': r1, 'per_type': per_type,
            'rule': '(a) all multisets up to per-type size with a unique arrangement x all distinct permutations '
                    '(budget %d per type); (b) additions-only BFS, budget %d transitions per type' %
                    (PERM_BUDGET[tier], BFS_BUDGET[tier])}
